@@ -27,7 +27,7 @@ cItems == { << <<98>>, E2 >> }
 cItems2 == { << <<98>>, E2 >>, << G4, G4, G4, G4, <<120>> >>, <<>> }
 cOpsCore == {"new","from_str","from_static","with_capacity","clone","drop","reserve","shrink_to",
              "push_str","pop","clear","truncate","remove","insert_str"}
-cOpsAll == cOpsCore \cup {"from_char","clone_from","retain","extend","collect"}
+cOpsAll == cOpsCore \cup {"from_char","clone_from","retain","extend","collect","display"}
 cOpsMut == {"clone","drop","reserve","shrink_to","push_str","pop","clear","truncate","remove","insert_str","clone_from","retain","extend"}
 cOpsIdx == {"truncate","remove","insert_str"}
 cSeedsEmpty == { <<>> }
@@ -54,4 +54,28 @@ cSeedsAll == { SeedHeapUnique, SeedHeapShared, SeedHeapSharedT, SeedHeapOver, Se
 cSeedsShared == { SeedHeapShared, SeedHeapSharedT, SeedHeapOverSh, SeedStaticSh }
 cSeedsIdx == { SeedHeapSharedT, SeedHeapOver, SeedStatic, SeedInline16m, SeedInlineMix,
                << o("from_str", 1, 0, 0, M22) >>, << o("from_static", 1, 1, 0, <<>>), o("clone", 2, 1, 0, <<>>) >> }
+
+\* ---- C09 / C20: every possible final byte of a full (16-byte) inline text
+P15 == <<97,98,99,100,101,102,103,104,105,106,107,108,109,110,111>>
+P14 == SubSeq(P15, 1, 14)
+cFinalByteTexts == {P15 \o <<b>> : b \in 0..127} \cup {P14 \o <<195, b>> : b \in 128..191}
+cStrFinal == cFinalByteTexts \cup { <<97>> }
+cOpsFinal == {"from_str", "pop", "push_str", "truncate", "clear", "clone", "remove", "drop"}
+\* ---- C17: the same text behind different representations (pairs / triples of handles)
+SeedPairOver   == << o("from_str", 1, 0, 0, A17), o("with_capacity", 2, 0, 40, <<>>), o("push_str", 2, 0, 0, A17) >>          \* exact vs over-allocated heap
+SeedPairShort  == << o("from_str", 1, 0, 0, A17), o("truncate", 1, 0, 3, <<>>), o("from_str", 2, 0, 0, <<97,98,99>>) >>       \* heap len 3 vs inline
+SeedPairStatic == << o("from_static", 1, 1, 0, <<>>), o("truncate", 1, 0, 6, <<>>), o("from_str", 2, 0, 0, SubSeq(St20, 1, 6)) >> \* static prefix vs inline
+SeedPairPop    == << o("from_str", 1, 0, 0, <<97,98,99,100>>), o("pop", 1, 0, 0, <<>>), o("from_str", 2, 0, 0, <<97,98,99>>) >>  \* inline with a stale byte vs fresh
+SeedPairStatH  == << o("from_static", 1, 1, 0, <<>>), o("from_str", 2, 0, 0, St20) >>                                         \* static vs heap, 20 bytes
+SeedTripleSh   == << o("from_str", 1, 0, 0, M22), o("clone", 2, 1, 0, <<>>), o("from_str", 3, 0, 0, M22) >>                   \* shared vs unique
+SeedTripleTr   == << o("from_str", 1, 0, 0, M22), o("clone", 2, 1, 0, <<>>), o("truncate", 2, 0, 6, <<>>), o("from_str", 3, 0, 0, SubSeq(M22, 1, 6)) >>
+SeedPair16     == << o("from_str", 1, 0, 0, M16), o("with_capacity", 2, 0, 17, <<>>), o("push_str", 2, 0, 0, M16) >>           \* 16 bytes inline vs heap
+cSeedsPairs == { SeedPairOver, SeedPairShort, SeedPairStatic, SeedPairPop, SeedPairStatH, SeedTripleSh, SeedTripleTr, SeedPair16 }
+cOpsPairs == {"compare", "push_str", "pop", "clone", "truncate", "drop", "clear"}
+cSeedsShrink == { SeedHeapOver, SeedHeapOverSh, SeedHeapShort, SeedHeapUnique, SeedHeapShared, SeedHeapSharedT, SeedStatic, SeedInline15,
+                  << o("with_capacity", 1, 0, 60, <<>>), o("push_str", 1, 0, 0, A17) >>,
+                  << o("with_capacity", 1, 0, 60, <<>>), o("push_str", 1, 0, 0, A17), o("clone", 2, 1, 0, <<>>) >>,
+                  << o("with_capacity", 1, 0, 30, <<>>), o("push_str", 1, 0, 0, <<97>>) >> }
+cCapsShrink == {0, 1, 15, 16, 17, 18, 21, 22, 23, 29, 30, 31, 39, 40, 41, 59, 60, 61, 100, BIG, TOOLONG}
+cOpsShrink == {"shrink_to", "reserve", "push_str", "pop", "clone", "drop"}
 =============================================================================
